@@ -405,7 +405,7 @@ def special_model_st(draw, cplx=None, max_modes=4, beta_lo=0.1, beta_hi=200.0, s
     wide=True adds Hubbard clusters whose parameters span many orders of magnitude (strong coupling, tiny fields)"""
     if cplx is None:
         cplx = draw(st.booleans())
-    kind = "wide" if tiny_field else draw(st.sampled_from(["free", "atomic", "ph-hubbard"] + (["wide", "wide", "wide-thr"] if wide else [])))
+    kind = "wide" if tiny_field else draw(st.sampled_from(["free", "atomic", "ph-hubbard", "pairhop"] + (["wide", "wide", "wide-thr"] if wide else [])))
     # "wide-thr": the wide family at the boundary of the library's energy resolution: one interaction of 1e2..1e4 (large poles) and a
     # Zeeman field that splits levels by 1e-6..1e-4, i.e. just above the guard band and near 1e-8 * |pole|
     thr = kind == "wide-thr"
@@ -427,6 +427,20 @@ def special_model_st(draw, cplx=None, max_modes=4, beta_lo=0.1, beta_hi=200.0, s
     elif kind == "atomic":
         for l in labs:
             terms.append(P("coulombS", l, [draw(grid_amp(0, 32)), 0.0], [draw(grid_amp(-16, 16)), 0.0]))
+    elif kind == "pairhop":
+        # sites coupled only by pair hopping c+_{a up} c+_{a dn} c_{b dn} c_{b up} + h.c. and density-density terms: no single-particle
+        # propagator connects different sites, the pair propagator does; S_z of every single site is conserved
+        if nsites < 2:
+            nsites = 2
+            labs = draw(st.lists(st.sampled_from(LABELS), min_size=2, max_size=2, unique=True))
+            sites = [[l, 1, 2] for l in labs]
+        for l in labs:
+            terms.append(P("coulombS", l, [draw(grid_amp(-16, 16)), 0.0], [draw(grid_amp(-8, 8)), 0.0]))
+        for a in range(nsites - 1):
+            v = draw(camp(cplx, nonzero=True))
+            terms += with_hc(v, [[1, labs[a], 0, 0], [1, labs[a], 0, 1], [0, labs[a + 1], 0, 1], [0, labs[a + 1], 0, 0]])
+            if draw(st.booleans()):
+                terms += with_hc([draw(grid_amp(-8, 8)), 0.0], [[1, labs[a], 0, 0], [0, labs[a], 0, 0], [1, labs[a + 1], 0, 1], [0, labs[a + 1], 0, 1]])
     elif kind == "wide":
         # Hubbard cluster with parameters over many decades: U up to 1e4 (exchange 4t^2/U far below the hopping), hoppings
         # down to 1e-4, optional tiny Zeeman field (splittings far below every other scale)
@@ -459,6 +473,13 @@ def special_model_st(draw, cplx=None, max_modes=4, beta_lo=0.1, beta_hi=200.0, s
         amax = max([abs(a[0]) for t in terms if t["k"] == "preset" for a in t["args"] if isinstance(a, list)] + [1.0])
         beta = min(beta, max(beta_lo, wide_beta_e / amax))
     symm = draw(symm_st(sites, symm_modes))
+    if kind == "pairhop" and "custom" in symm_modes and draw(st.booleans()):
+        # user-supplied integrals of motion: N, S_z and the S_z of one site (finer than the default partition)
+        modes_ = modes_of(sites)
+        lab = draw(st.sampled_from(labs))
+        symm = {"mode": "custom", "ops": [[[[1.0, 0.0], n_op(m)] for m in modes_],
+                                          [[[0.5 if m[2] == 1 else -0.5, 0.0], n_op(m)] for m in modes_],
+                                          [[[0.5 if m[2] == 1 else -0.5, 0.0], n_op(m)] for m in modes_ if m[0] == lab]]}
     m = {"cplx": bool(cplx), "sites": sites, "terms": terms, "order_spins": 0, "symm": symm, "beta": beta, "family": kind}
     if draw(st.integers(0, 3)) == 0:
         m["repeat"] = True
@@ -486,6 +507,10 @@ def chi_quad_st(N):
     """(i,j,k,l) of chi_ijkl = <T c_i c_j c+_k c+_l>: the index patterns that can be non-zero when N and S_z are conserved
     ((i,j,i,j), (i,j,j,i), (i,i,i,i)) in half of the draws, arbitrary quadruples otherwise"""
     ix = st.integers(0, N - 1)
+    # pair pattern (a up, a dn, b up, b dn) for neighbouring index pairs: the component a pair-hopping term makes non-zero
+    pair = st.tuples(st.integers(0, max(0, N // 2 - 1)), st.integers(0, max(0, N // 2 - 1)), st.integers(0, 3)).map(
+        lambda t: [(2 * t[0], 2 * t[0] + 1, 2 * t[1], 2 * t[1] + 1), (2 * t[0] + 1, 2 * t[0], 2 * t[1], 2 * t[1] + 1),
+                   (2 * t[0], 2 * t[0] + 1, 2 * t[1] + 1, 2 * t[1]), (2 * t[0] + 1, 2 * t[0], 2 * t[1] + 1, 2 * t[1])][t[2]]).filter(lambda q: max(q) < N)
     return st.one_of(st.tuples(ix, ix).map(lambda t: (t[0], t[1], t[0], t[1])),
                      st.tuples(ix, ix).map(lambda t: (t[0], t[1], t[1], t[0])),
-                     st.tuples(ix, ix, ix, ix), st.tuples(ix, ix, ix, ix))
+                     st.tuples(ix, ix, ix, ix), st.tuples(ix, ix, ix, ix), pair if N >= 2 else st.tuples(ix, ix, ix, ix))
